@@ -992,6 +992,7 @@ class Registry:
         cs = State()
         sub_self = None
         cs.pc = st.pc  # shared: assumptions land in the caller
+        sub_orig = {}
         for n in pnames:
             if n not in bound and n.startswith("ghost_"):
                 # ghost state (a log of calls into an assumed library): never passed by the code, threaded from the caller's ghost parameter of the same name
@@ -1012,9 +1013,12 @@ class Registry:
             try:
                 a_ = bound[n]
                 if (a_.t[0] == "obj" and c.params[n][0] == "obj" and a_.t != c.params[n] and c.params[n][1] in OBJ_LAYOUT
-                        and c.params[n][1] in self._all_bases(a_.t[1]) and all(f in a_.x for f in OBJ_LAYOUT[c.params[n][1]])
-                        and n not in c.modifies):
-                    # a subclass instance passed where the (non-mutating) contract speaks about the base class: its base-class fields
+                        and c.params[n][1] in self._all_bases(a_.t[1]) and all(f in a_.x for f in OBJ_LAYOUT[c.params[n][1]])):
+                    # a subclass instance passed where the contract speaks about the base class: its base-class fields
+                    # (a MUTATING base-class contract, e.g. super().__init__: only the base-class fields are havocked / written back,
+                    # the subclass's own fields are outside the base method's frame and keep their values)
+                    if n in c.modifies:
+                        sub_orig[n] = a_
                     a_ = V(c.params[n], {f: a_.x[f] for f in OBJ_LAYOUT[c.params[n][1]]})
                 elif (a_.t[0] == "obj" and c.params[n][0] == "obj" and a_.t != c.params[n] and c.params[n][1] in OBJ_LAYOUT
                         and c.params[n][1] in self._all_bases(a_.t[1]) and all(f in a_.x for f in OBJ_LAYOUT[c.params[n][1]])
@@ -1158,9 +1162,10 @@ class Registry:
                 if f"star_kwargs:{m}" in c.opts:
                     continue   # the callee's **kwargs dict is its own copy
                 idx = pnames.index(m)
-                if m == "self" and sub_self is not None:
-                    cs.vars[m] = V(sub_self.t, dict(sub_self.x, **cs.vars[m].x))
-                self.write_back(eng, st, node, idx, m, cs.vars[m], self_expr)
+                nv_ = cs.vars[m]
+                if m in sub_orig:
+                    nv_ = V(sub_orig[m].t, {**sub_orig[m].x, **nv_.x})
+                self.write_back(eng, st, node, idx, m, nv_, self_expr)
             out.append((st, res))
             return out
         finally:
@@ -1168,7 +1173,7 @@ class Registry:
             eng.bound = saved_bound
 
     def pure_fn_app(self, eng, c, cs, lineno, raises_handled=False):
-        scalar = ("bool", "str", "int", "node", "data", "bag", "set", "obj")   # obj: a freshly built record, denoted by its snapshot term (vals.obj_sort)
+        scalar = ("bool", "str", "int", "node", "data", "bag", "set", "obj", "opaque")   # obj: a freshly built record, denoted by its snapshot term (vals.obj_sort)
         is_opt = c.returns is not None and c.returns[0] == "opt" and c.returns[1][0] in scalar
         in_comp = (not eng.spec) and bool(getattr(eng, "_comp_ctx", None))
         if c.modifies or (c.raises and not (in_comp or eng.spec or raises_handled)) or c.returns is None or not (c.returns[0] in scalar or is_opt):
